@@ -163,3 +163,9 @@ C15 = simple_check("C15", "c15", "model_checking",
     rule="exhaustive product of resolver base URLs (scheme/host x context paths of 0-3 segments over {root, root+suffix, prefix-of-root, other} x trailing slash) x encoded resource paths (20 key contents incl. %XX, dot segments, ;, ?, #, reserved characters, at 1 and 2 key positions) x queries x {NewGetRequest, NewJsonRequest}; the URL of the built *http.Request (scheme, host, EscapedPath, RawQuery, String() re-parse) and the request target written to the wire are compared with the reference construction; states = bases, transitions = request constructions",
     assumptions=["contexts holding the root resource name as a complete non-final segment are don't-care, as the property says"],
     trusted=["refurl in harness/c15", "net/url parsing"])
+
+C14 = simple_check("C14", "c14", "model_checking", shards=1,
+    rule="enumeration of verb x query x body x threshold: (function level) EncodeTunnelledQuery output is serialised, parsed by net/http's server parser and de-tunnelled by DecodeTunnelledQuery, and compared field by field (verb, path, raw query, request URI, body bytes, content type, Rest.li headers) with the plain request parsed the same way; (client level) request builders with thresholds {0,1,len-1,len,len+1,10^6}: tunnelled iff threshold>0 and len(query)>threshold, otherwise byte-identical to the plain request; (malformed) hand-built malformed tunnelled requests must be answered 400 without reaching stub resource code; states = cases, transitions = encode/decode calls",
+    assumptions=["queries that cannot be sent untunnelled at all (raw control characters) have no plain counterpart and are skipped at function level (counted)",
+                 "the multipart boundary is random (crypto/rand) and not owned; the oracle never looks at it"],
+    trusted=["net/http request serialisation and parsing", "hand-written reference tunnelling encodings in harness/c14"])
